@@ -99,7 +99,7 @@ def case_alternatives(rep, drv, rnd, i):
         rep.count('unspecified-skipped')
         return
     try:
-        got, bound = unif.real_unify_alternatives(prefix, alts, watch)
+        got, bound = unif.real_unify_alternatives(prefix, alts, watch, method=(i % 8 == 7))
     except RecursionError:
         rep.count('unspecified-skipped')
         return
